@@ -38,6 +38,16 @@ type Op struct {
 	Row  int      `json:",omitempty"`
 	G    string   `json:",omitempty"` // set0, fill0: the grapheme of the cell whose Width is left at 0 ("" = "中")
 	Segs []string `json:",omitempty"`
+	Pre  []Pre    `json:",omitempty"` // style: what the call finds on the screen
+}
+
+// Pre is a cell put on the screen (screen coordinates, through the full-screen
+// window) BEFORE the round's snapshot, on top of the sentinel: what the window's
+// call then finds there. K: "w" a two-cell glyph (Width 2), "0" a two-cell glyph
+// whose Width is left at 0, "e" the empty cell (vaxis.Cell{}).
+type Pre struct {
+	K    string
+	C, R int
 }
 
 type Round struct {
@@ -63,6 +73,7 @@ const (
 	wideBg     = 3
 	autoBg     = 4
 	styleBg    = 5
+	preBg      = 6 // "w", 7 for "0"
 	segBg0     = 9 // segments use 9, 10, 11, ...
 )
 
@@ -73,6 +84,18 @@ var (
 	marker   = vaxis.Cell{Character: vaxis.Character{Grapheme: "M", Width: 1}, Style: vaxis.Style{Background: idx(markBg)}}
 	wideMark = vaxis.Cell{Character: vaxis.Character{Grapheme: "世", Width: 2}, Style: vaxis.Style{Background: idx(wideBg)}}
 )
+
+// preCell is the cell a round finds on the screen at a Pre position.
+func preCell(k string) vaxis.Cell {
+	switch k {
+	case "w":
+		return vaxis.Cell{Character: vaxis.Character{Grapheme: "界", Width: 2}, Style: vaxis.Style{Background: idx(preBg)}}
+	case "0":
+		return vaxis.Cell{Character: vaxis.Character{Grapheme: "好"}, Style: vaxis.Style{Background: idx(preBg + 1)}}
+	default: // "e"
+		return vaxis.Cell{}
+	}
+}
 
 // autoCell is a cell whose Width is left at 0: the documented way of letting
 // Vaxis measure the grapheme (it then takes the width of the terminal it runs on).
@@ -197,8 +220,11 @@ func Run(ctx *Ctx, sc *Scn) (evs []trace.Ev, note string) {
 		ctx.dump("%s out=%q\n", tag, stripNUL(o))
 		evs = append(evs, cv.Feed(o)...)
 	}
-	refill := func(full bool) {
+	refill := func(full bool, pre []Pre) {
 		vx.Window().Fill(sentinel)
+		for _, p := range pre {
+			vx.Window().SetCell(p.C, p.R, preCell(p.K))
+		}
 		if full {
 			// a glyph that got over the screen's edge makes the terminal wrap or scroll, which the
 			// library does not know of: repaint everything so that the rounds stay independent
@@ -211,8 +237,9 @@ func Run(ctx *Ctx, sc *Scn) (evs []trace.Ev, note string) {
 		}
 		evs = append(evs, trace.Ev{"ev": "mark"})
 	}
-	refill(false)
+	full := false
 	for i, rd := range sc.Rounds {
+		refill(full, rd.Op.Pre)
 		op := rd.Op
 		chain := make([]map[string]any, 0, len(rd.Chain))
 		for _, lv := range rd.Chain {
@@ -292,8 +319,10 @@ func Run(ctx *Ctx, sc *Scn) (evs []trace.Ev, note string) {
 			return evs, note
 		}
 		evs = append(evs, chk)
-		// (also after the hand-written texts whose clusters' width depends on the terminal)
-		refill(op.K == "set0" || op.K == "setw" || op.K == "fill0" || op.K == "fillw" || sc.Kind == "fixedwidth")
+		// the next sentinel frame is repainted in full after a wide direct call (see refill), after the
+		// hand-written texts whose clusters' width depends on the terminal and after a round that
+		// found wide glyphs on the screen
+		full = op.K == "set0" || op.K == "setw" || op.K == "fill0" || op.K == "fillw" || sc.Kind == "fixedwidth" || len(op.Pre) > 0
 	}
 	return evs, note
 }
@@ -629,13 +658,11 @@ func GenTextWidth(rng *rand.Rand, maxLen int, keep float64) []*Scn {
 // core: 2/2, 1/2, 2/1 and 4/2 cells (code points added up / Unicode).
 var autoGraphemes = []string{"中", "\u263A\uFE0F", "a\uFF9E", "\U0001F469\u200D\U0001F680"}
 
-// GenWideEdge: single cells and fills with two-cell content, Width explicit
-// and Width 0, at and around the right edge of windows whose right edge is
-// inside the screen, on the screen's edge (also in the bottom row, where an
-// overhanging glyph makes the terminal scroll) or beyond it, and of windows
-// cut by an ancestor. 5x3 screen. keep < 1 samples the geometries.
-func GenWideEdge(rng *rand.Rand, keep float64) []*Scn {
-	b := &batcher{kind: "wideedge", cols: 5, rows: 3, per: 24}
+// edgeChains: the one-row windows of the 5x3 screen whose right edge is inside
+// the screen, on its edge or beyond it (every mode x offset 0..4 x size
+// {1,2,3,5,-1} x row {0, bottom}), and children cut by their parent's right edge.
+// The window's row 0 is screen row R of the last level.
+func edgeChains() [][]Level {
 	var chains [][]Level
 	for _, m := range modes {
 		for c := 0; c <= 4; c++ {
@@ -657,16 +684,27 @@ func GenWideEdge(rng *rand.Rand, keep float64) []*Scn {
 			}
 		}
 	}
+	return chains
+}
+
+// GenWideEdge: single cells and fills with two-cell content, Width explicit
+// and Width 0, at and around the right edge of windows whose right edge is
+// inside the screen, on the screen's edge (also in the bottom row, where an
+// overhanging glyph makes the terminal scroll) or beyond it, and of windows
+// cut by an ancestor. 5x3 screen. keep < 1 samples the geometries.
+func GenWideEdge(rng *rand.Rand, keep float64) []*Scn {
+	b := &batcher{kind: "wideedge", cols: 5, rows: 3, per: 24}
+	chains := edgeChains()
 	for _, ch := range chains {
 		if keep < 1 && rng.Float64() >= keep {
 			continue
 		}
 		for x := 0; x <= 5; x++ {
-			b.add(Round{ch, Op{K: "set0", C: x}})
+			b.add(Round{Chain: ch, Op: Op{K: "set0", C: x}})
 		}
-		b.add(Round{ch, Op{K: "setw", C: rng.Intn(6)}})
-		b.add(Round{ch, Op{K: "fill0"}})
-		b.add(Round{ch, Op{K: "fillw"}})
+		b.add(Round{Chain: ch, Op: Op{K: "setw", C: rng.Intn(6)}})
+		b.add(Round{Chain: ch, Op: Op{K: "fill0"}})
+		b.add(Round{Chain: ch, Op: Op{K: "fillw"}})
 	}
 	b.flush()
 	out := b.out
@@ -687,6 +725,96 @@ func GenWideEdge(rng *rand.Rand, keep float64) []*Scn {
 		out = append(out, bm.out...)
 	}
 	return out
+}
+
+// ---- set style on what is already on the screen -----------------------------
+
+// GenStyle: SetStyle through the windows of edgeChains on a row of the 5x3
+// screen that holds a two-cell glyph in columns gx, gx+1 (gx = 0..3; Width 2 or
+// left at 0), at every window column 0..5: narrow cells, the glyph's left and
+// right half, with the glyph inside the window, outside it, or cut by the right
+// or left edge of the window or of a parent; now and then an empty cell
+// elsewhere on the row. keep < 1 samples (window, glyph position) pairs.
+// Then a few on a terminal with Unicode core.
+func GenStyle(rng *rand.Rand, keep float64) []*Scn {
+	b := &batcher{kind: "styleedge", cols: 5, rows: 3, per: 24}
+	rounds := func(b *batcher, ch []Level, gx int, k string) {
+		row := ch[len(ch)-1].R
+		pre := []Pre{{K: k, C: gx, R: row}}
+		if e := rng.Intn(8); e < 5 && e != gx && e != gx+1 {
+			pre = append(pre, Pre{K: "e", C: e, R: row})
+		}
+		if rng.Intn(6) == 0 && gx+3 < 5 { // a second glyph right behind the first
+			pre = append(pre, Pre{K: "w", C: gx + 2, R: row})
+		}
+		for x := 0; x <= 5; x++ {
+			b.add(Round{Chain: ch, Op: Op{K: "style", C: x, Pre: pre}})
+		}
+	}
+	for _, ch := range edgeChains() {
+		for gx := 0; gx <= 3; gx++ {
+			if keep < 1 && rng.Float64() >= keep {
+				continue
+			}
+			k := "w"
+			if rng.Intn(3) == 0 {
+				k = "0"
+			}
+			rounds(b, ch, gx, k)
+		}
+	}
+	b.flush()
+	out := b.out
+	bm := &batcher{kind: "styleedge", mask: 1 << 1, cols: 5, rows: 3, per: 24}
+	for _, ch := range [][]Level{{{"new", 0, 0, 3, 1}}, {{"new", 3, 2, 3, 1}}, {{"new", 1, 0, 3, 3}, {"raw", 0, 0, 4, 1}}} {
+		for gx := 1; gx <= 3; gx++ {
+			rounds(bm, ch, gx, "0")
+		}
+	}
+	bm.flush()
+	return append(out, bm.out...)
+}
+
+// GenStyleTrees: SetStyle at a seeded coordinate through seeded trees of depth
+// 1 to 3 on the 4x3 screen, which holds one or two two-cell glyphs.
+func GenStyleTrees(rng *rand.Rand, n int) []*Scn {
+	b := &batcher{kind: "styletree", cols: 4, rows: 3, per: 24}
+	for i := 0; i < n; i++ {
+		ch := randChain(rng, 1+rng.Intn(3))
+		pre := []Pre{{K: []string{"w", "w", "0"}[rng.Intn(3)], C: rng.Intn(3), R: rng.Intn(3)}}
+		if rng.Intn(3) == 0 {
+			p := Pre{K: "w", C: rng.Intn(3), R: rng.Intn(3)}
+			if p.R != pre[0].R {
+				pre = append(pre, p)
+			}
+		}
+		for k := 0; k < 3; k++ {
+			// mostly at or next to a glyph
+			p := pre[rng.Intn(len(pre))]
+			o := Origin(ch, 4, 3)
+			c, r := p.C-o[0]+rng.Intn(3)-1, p.R-o[1]
+			if rng.Intn(4) == 0 {
+				c, r = rng.Intn(8)-1, rng.Intn(6)-1
+			}
+			b.add(Round{Chain: ch, Op: Op{K: "style", C: c, R: r, Pre: pre}})
+		}
+	}
+	b.flush()
+	return b.out
+}
+
+// Origin adds up the offsets of a chain (the last "top" level starts over):
+// only used to aim the generator's coordinates at a glyph.
+func Origin(chain []Level, cols, rows int) [2]int {
+	o := [2]int{}
+	for _, lv := range chain {
+		if lv.M == "top" {
+			o = [2]int{}
+		}
+		o[0] += lv.C
+		o[1] += lv.R
+	}
+	return o
 }
 
 // GenTextRandom: longer seeded strings in seeded trees (clipped by ancestors).
@@ -783,8 +911,29 @@ func Fixed() []*Scn {
 		{in13, Op{K: "trunc", Segs: []string{"\u263A\uFE0Fbcd"}}},
 		{in13, Op{K: "wrap", Segs: []string{"a\uFF9E \u263A\uFE0Fb c"}}},
 	}
+	// SetStyle on a screen that holds a two-cell glyph in columns 2 and 3 of row 0
+	g23 := []Pre{{K: "w", C: 2, R: 0}}
+	g23auto := []Pre{{K: "0", C: 2, R: 0}}
+	style := []Round{
+		// the glyph hangs over the window's right edge, a parent's right edge; its left half is outside
+		{in3, Op{K: "style", C: 2, Pre: g23}},
+		{in3, Op{K: "style", C: 2, Pre: g23auto}},
+		{[]Level{{"new", 0, 0, 3, 3}, {"raw", 0, 0, 6, 1}}, Op{K: "style", C: 2, Pre: g23}},
+		{[]Level{{"new", 0, 0, 3, 3}, {"new", 1, 0, 4, 1}}, Op{K: "style", C: 1, Pre: g23}},
+		{edge, Op{K: "style", C: 0, Pre: g23}},
+		// the glyph is wholly the window's: left half, right half
+		{[]Level{{"new", 0, 0, 4, 2}}, Op{K: "style", C: 2, Pre: g23}},
+		{[]Level{{"new", 2, 0, 2, 1}}, Op{K: "style", C: 0, Pre: g23auto}},
+		{[]Level{{"new", 0, 0, 4, 2}}, Op{K: "style", C: 3, Pre: g23}},
+		// next to it, on an empty cell, outside the window
+		{in3, Op{K: "style", C: 1, Pre: g23}},
+		{in3, Op{K: "style", C: 1, Pre: []Pre{{K: "e", C: 1, R: 0}, {K: "w", C: 2, R: 0}}}},
+		{in3, Op{K: "style", C: 3, Pre: g23}},
+		{[]Level{{"new", 0, 0, 2, 2}}, Op{K: "style", C: 2, Pre: g23}},
+	}
 	return []*Scn{
 		{Kind: "fixed", Cols: 6, Rows: 3, Rounds: rounds},
+		{Kind: "fixedstyle", Cols: 6, Rows: 3, Rounds: style},
 		{Kind: "fixedwide", Cols: 6, Rows: 3, Rounds: wide},
 		{Kind: "fixedwidth", Cols: 6, Rows: 3, Rounds: width},
 		{Kind: "fixedwidth", Mask: 1 << 1, Cols: 6, Rows: 3, Rounds: width},
